@@ -292,6 +292,38 @@ theorem session_decodes_wire (c : Crypto) (L : CryptoLaws c) {cfg : HttpCfg} {pg
   rw [this]
   exact h2
 
+/-- Under the configuration-level hypotheses `WireCfg` (token verbs, clean absolute paths, printable placements: static
+headers well formed, static parameter values non-empty, header terminations fed by a CR-free encoder chain — see
+`cleanOut` —, no uri-append) and CR-free User-Agent / Host values, the requests built by `get_task` and `send_callback`
+(or a multi-callback POST) meet C16's round-trip hypotheses. -/
+theorem client_requests_wire_ok (c : Crypto) (L : CryptoLaws c) {cfg : HttpCfg} {pg pp : Program} {es : List Enc}
+    (wf : WellFormedCfg cfg pg pp es) (wcfg : WireCfg cfg pg pp) (cl : Client) (hcl : cl.cfg = cfg)
+    (wc : WellFormedClient c cl) (wcl : WireClient cl) :
+    (∀ rr rand r cl', getTaskRequest c cl rr rand = .ok (r, cl') → MsgWireOk (.request r)) ∧
+    (∀ cbs rand r cl', cbs ≠ [] → cl.counter + cbs.length < 2 ^ 32 →
+      (∀ cb ∈ cbs, cb.1 < 2 ^ 32 ∧ cb.2.length + 64 < 2 ^ 32) →
+      callbackRequest c cl cbs rand = .ok (r, cl') → MsgWireOk (.request r)) :=
+  ⟨fun rr rand r cl' h => getTaskRequest_wireOk c L wf wcfg cl hcl wc wcl rr rand r cl' h,
+   fun cbs rand r cl' hne hc hcb h => callbackRequest_wireOk c L wf wcfg cl hcl wc wcl cbs rand hne hc hcb r cl' h⟩
+
+/-- **History theorem (raw bytes), full strength.**  For every well-formed and wire-safe configuration, every client,
+every decoder state of the invariant and every admissible history (callback posts non-empty), the raw HTTP bytes of the
+session — requests rendered as `METHOD path?percent-encoded-params HTTP/1.1`, headers, body; responses as
+`HTTP/1.1 200 OK`, any well-formed headers, body — decode, in order with ONE decoder object, to exactly `expectedTrace`:
+the metadata of every check-in when the RSA private key is there; every task and every callback, in order, from the start
+when AES random bytes / AES+HMAC keys were given and from the message after the first check-in when only the RSA key was;
+ValueError and nothing before that. -/
+theorem session_decodes (c : Crypto) (L : CryptoLaws c) {cfg : HttpCfg} {pg pp : Program} {es : List Enc}
+    (wf : WellFormedCfg cfg pg pp es) (wcfg : WireCfg cfg pg pp) (hs : Dict) (hhs : C16.WellFormedHeaders hs)
+    (evs : List Event) (cl : Client) (dec : Decoder) (known : Bool)
+    (hcl : cl.cfg = cfg) (wc : WellFormedClient c cl) (wcl : WireClient cl) (inv : Inv c cl dec known)
+    (hok : EventsOk cl.counter evs) (hne : ∀ cbs rand, Event.callbacks cbs rand ∈ evs → cbs ≠ []) :
+    ∃ msgs, emitAll c ⟨cl, es, hs⟩ evs = .ok msgs ∧
+      (decodeAll c dec (msgs.map fun m => Input.raw (wireOf m.1))).1.map (fun o => (o.items, o.exc)) =
+        expectedTrace dec.hasPriv known evs msgs := by
+  obtain ⟨msgs, h1, h2⟩ := session_decodes_wire c L wf hs evs cl dec known hcl wc inv hok
+  exact ⟨msgs, h1, h2 (emitAll_wireOk c L wf wcfg hs hhs evs cl hcl wc wcl hok hne msgs h1)⟩
+
 /-! ### Non-vacuity: a concrete configuration, client, history and toy primitives meeting every hypothesis -/
 
 /-- `http-get.client { header "Accept" "*/*"; metadata { mask; base64url; prepend "S="; header "Cookie"; } }` -/
@@ -328,6 +360,15 @@ def exEvents : List Event :=
 
 example : WellFormedCfg exCfg exGet exPost exServer :=
   ⟨rfl, rfl, rfl, by decide, by decide, by decide, by decide, by decide, by decide, by decide, by decide⟩
+
+example : WireCfg exCfg exGet exPost :=
+  ⟨by decide, by decide, by decide, by decide, by decide, by decide⟩
+
+example : WireClient exClient := ⟨by decide, by decide⟩
+
+/-- a header termination fed by `mask` alone is not wire-safe, `mask; base64` is -/
+example : cleanOut [.mask] = false ∧ cleanOut [.mask, .base64, .prepend (.bytes [83, 61])] = true ∧
+    cleanOut [.base64, .append (.bytes [13])] = false := by decide
 
 theorem exClient_wf : WellFormedClient toyC exClient :=
   ⟨by decide, by decide, by decide, by decide, by decide, rfl, by decide⟩
